@@ -202,6 +202,28 @@ func genC06(r *rng, tier string) *Case {
 		}
 	}
 	p.K = pick(r, 0, 3, 40, 500, 100000)
+	if r.chance(0.1) {
+		// one closure that recurses deeper than the initial size of a value stack (50 slots) before it answers
+		d := pick(r, 44, 60, 60, 120)
+		var cands []int
+		for i := range p.Stages {
+			if hasClosure(p.Stages[i].Op) {
+				cands = append(cands, i)
+			}
+		}
+		switch {
+		case len(p.MU) > 0 && r.chance(0.7):
+			j := r.intn(len(p.MU))
+			if p.MU[j].Op == "sum" || p.MU[j].Op == "size" || p.MU[j].Op == "last" || p.MU[j].Op == "string" || p.MU[j].Op == "first" || p.MU[j].Op == "topsize" || p.MU[j].Op == "lazyret" {
+				p.MU[j].Op = pick(r, "reduce", "mapReduce", "minMax")
+			}
+			p.MU[j].Deep = d
+		case hasClosure(p.Term.Op) && r.chance(0.5):
+			p.Term.Deep = d
+		case len(cands) > 0:
+			p.Stages[pick(r, cands...)].Deep = d
+		}
+	}
 	// wrappers
 	var costStages []int
 	for i := range p.Stages {
@@ -389,7 +411,10 @@ var c05Ctx = []string{"top", "closure", "seq-map", "par-map", "seq-accept", "par
 	"mu-source", "mu-consumer", "mu-consumer-par", "nested-closure", "order", "iir",
 	"mu-consumer-lazy-combine", "mu-consumer-lazy-iir", "mu-consumer-lazy-number", "mu-consumer-lazy-map", "mu-consumer-map-of-lists", "mu-source-par",
 	"merge-operand-combine", "par-upstream-combine", "par-upstream-number", "collector-iir", "collector-accept", "collector-cross", "seq-cross", "seq-compact", "seq-fsm",
-	"seq-combine3", "seq-number", "par-map-nested", "groupby", "minmax", "visit", "present", "index-where"}
+	"seq-combine3", "seq-number", "par-map-nested", "groupby", "minmax", "visit", "present", "index-where",
+	// the consumer stops early: the fault is raised on a goroutine that is still finishing its item while
+	// (or after) the evaluation returns - the outcome may be a value or an error, the process has to live
+	"merge-operand-number-early", "merge-operand2-iir-early", "merge-operand-combine-early", "mu-source-early", "par-upstream-number-early"}
 
 // boundary operands for operators, static functions and methods: "all (operator, operand-type
 // pair, boundary value) combinations". The oracle for this class is only: no crash, no hang.
@@ -546,6 +571,12 @@ func genC05(r *rng, tier string) *Case {
 	if ctx == "merge-less" {
 		k = 0 // the less function only sees p while both lists still have elements: trigger on the first call
 	}
+	if strings.HasSuffix(ctx, "-early") {
+		k = pick(r, 1, 2, 3, 4) // right behind what the consumer takes
+		if ctx == "par-upstream-number-early" {
+			k = pick(r, 14, 15, 16, 20)
+		}
+	}
 	ks := "k"
 	// the fault may sit below many levels of operands: every level wraps the error once more
 	deep := 0
@@ -617,6 +648,17 @@ func genC05(r *rng, tier string) *Case {
 		body = "numbers(a).multiUse({s: l->{inner: l.combine((p,q)->" + f("q") + ")}, n: l->l.size()}).s.inner.size()"
 	case "mu-source-par":
 		body = "numbers(a).map(x->cost(0," + f("x") + ")).multiUse({s: l->l.sum(), n: l->l.size()}).s"
+		parallel = true
+	case "merge-operand-number-early":
+		body = "numbers(a).number((n,x)->" + f("x") + ").merge(numbers(b), (p,q)->p<q).first()"
+	case "merge-operand2-iir-early":
+		body = "numbers(b).merge(numbers(a).iir(x->x, (x,l)->" + f("x") + "), (p,q)->p<q).top(2).size()"
+	case "merge-operand-combine-early":
+		body = "numbers(a).combine((p,q)->" + f("q") + "+p).merge(numbers(b), (p,q)->p<q).present(x->x>=0)"
+	case "mu-source-early":
+		body = "numbers(a).number((n,x)->" + f("x") + ").multiUse({u:l->l.first(), v:l->l.top(2).size()}).u"
+	case "par-upstream-number-early":
+		body = "numbers(a).number((n,x)->" + f("x") + ").map(x->cost(0,x)).indexWhere(x->x>=13)"
 		parallel = true
 	case "merge-operand-combine":
 		body = "numbers(a).combine((p,q)->" + f("q") + "+p).merge(numbers(b), (p,q)->p<q).size()"
@@ -814,6 +856,15 @@ func genC08(r *rng, tier string) *Case {
 			if k+offset >= p.N-offset-2 {
 				k = 0
 				need = offset
+			}
+		}
+		if second == "plus" && r.chance(0.3) {
+			// a size-limited view over list + short list of known size: the size of the sum must not be
+			// taken for the size of its known part (top(n) with n >= that size has to stay a limit)
+			term = "topsize"
+			p.B = pick(r, 0, 1, 2, 3)
+			if r.chance(0.7) {
+				p.Stages = append(p.Stages, Stage{Op: "accept", Ident: true}) // the receiver loses its known size
 			}
 		}
 		p.Stages = append(p.Stages, Stage{Op: second, Ident: true})
@@ -1075,7 +1126,7 @@ func genC12(r *rng, tier string) *Case {
 			if huge {
 				p.MU = append(p.MU, Stage{Op: pick(r, "first", "topsize", "present"), N: r.rangeInt(1, 30)})
 			} else {
-				p.MU = append(p.MU, Stage{Op: pick(r, "first", "topsize", "sum", "size", "noread", "noread", "present", "last", "sum", "size", "notfunc", "arity2", "twice", "twice", "twice-short", "lazyret", "lazyret"), N: r.rangeInt(1, 30)})
+				p.MU = append(p.MU, Stage{Op: pick(r, "first", "topsize", "sum", "size", "noread", "noread", "present", "last", "sum", "size", "notfunc", "arity2", "twice", "twice", "twice-short", "lazyret", "lazyret", "unopened", "unopened"), N: r.rangeInt(1, 30)})
 			}
 		}
 	}
